@@ -20,10 +20,28 @@ const (
 	kUSE
 	kALL
 	kGRP // GET registered inside app.Group("/ab")
+	// kinds of the full alphabet end here; the two below are the other multi-method registration sites
+	// (Registering.Add, Group.Add) and only occur in the same-path family
+	kRTADD // app.Route(p).Add([GET, POST], ...)
+	kGRALL // app.Group("/").All(p, ...)
 	nKinds
 )
 
-var kindNames = [nKinds]string{"GET", "POST", "USE", "ALL", "GROUP(/ab).GET"}
+const nFullKinds = kGRP + 1
+
+var kindNames = [nKinds]string{"GET", "POST", "USE", "ALL", "GROUP(/ab).GET", "ROUTE(p).ADD[GET,POST]", "GROUP(/).ALL"}
+
+// chainLens: number of handlers passed in ONE registration call (entry.cl indexes it). All but the last are
+// plain Next() pass-throughs, the last one has the entry's behaviour. 5 is the smallest length at which the
+// slice built by the Add methods (`append([]Handler{h}, hs...)`) has spare capacity (Go rounds 40 bytes up to
+// the 48-byte size class), i.e. where a later in-place append can be seen through another route object
+// sharing the array.
+var chainLens = [...]int{1, 5}
+
+const (
+	nLens    = len(chainLens)
+	maxChain = 5
+)
 
 const (
 	bReply = iota
@@ -41,7 +59,21 @@ var behNames = [nBeh]string{"reply", "Next", `Path("/abc")+Next`, `Path("/x")+Ne
 var patterns = []string{
 	"/", "/a", "/ab", "/abc", "/abc/", "/abcd", "/abc/d", "/a/:p?", "/ab/:p?", "/:p", "/abc/:p",
 	"/*", "/abc/*", "/ABC", "/a b", `/ab\:c`, "/x", "/a/*",
+	// unescaped / escaped twins of `/ab\:c` and "/a/*": same text once the escape characters are removed,
+	// different routes (parameter vs. literal ':' / '*')
+	"/ab:c", `/a/\*`,
 }
+
+// Same-path / multi-method family (both tiers): every table of exactly 3 entries over
+// famKinds x famPatterns x famBehs x chainLens. The two patterns are an escaped/unescaped twin pair, so that
+// consecutive registrations are either the same pattern (duplicate-path merging in one or several method
+// stacks) or differ by the escape character only.
+var (
+	famKinds    = []int{kGET, kPOST, kUSE, kALL, kRTADD, kGRALL}
+	famPatterns = []string{"/ab:c", `/ab\:c`}
+	famBehs     = []int{bReply, bNext}
+	famReqPaths = []string{"/abc", "/x", "/ab:c"}
+)
 
 // subPatterns is the sub-alphabet of the 3-entry pass of the thorough tier.
 var subPatterns = []string{"/", "/ab", "/abc", "/a/:p?", "/:p", "/abc/:p", "/*", "/x"}
@@ -51,7 +83,7 @@ var subReqPaths = []string{"/", "/a", "/a/", "/ab", "/abc", "/abc/", "/ABC", "/a
 
 var reqPaths = []string{
 	"/", "/a", "/a/", "/ab", "/ab/", "/abc", "/abc/", "/ABC", "/abcd", "/abc/d", "/abc/d/", "/x",
-	"/a%20b", "/%61bc", "//", "/ab:c", "/ab/a", "/a/x",
+	"/a%20b", "/%61bc", "//", "/ab:c", "/ab/a", "/a/x", "/a/*",
 }
 
 // request methods as indices into fiber.DefaultMethods
@@ -91,37 +123,59 @@ func (c cfgT) fiber() fiber.Config {
 	return fiber.Config{CaseSensitive: c.CaseSensitive, StrictRouting: c.StrictRouting, UnescapePath: c.UnescapePath, ErrorHandler: errStatus}
 }
 
-type entry struct{ kind, pat, beh uint8 }
+// entry is one registration call: kind of call, pattern, behaviour of its last handler, and cl = index into
+// chainLens (0: a single handler).
+type entry struct{ kind, pat, beh, cl uint8 }
+
+func (e entry) chain() int { return chainLens[e.cl] }
 
 func (e entry) String() string {
 	p := patterns[e.pat]
+	hs := behNames[e.beh]
+	if n := e.chain(); n > 1 {
+		hs = fmt.Sprintf("%d x Next, %s", n-1, hs)
+	}
 	switch e.kind {
 	case kUSE:
-		return fmt.Sprintf("app.Use(%q, %s)", p, behNames[e.beh])
+		return fmt.Sprintf("app.Use(%q, %s)", p, hs)
 	case kALL:
-		return fmt.Sprintf("app.All(%q, %s)", p, behNames[e.beh])
+		return fmt.Sprintf("app.All(%q, %s)", p, hs)
 	case kGRP:
-		return fmt.Sprintf("app.Group(\"/ab\").Get(%q, %s)", p, behNames[e.beh])
+		return fmt.Sprintf("app.Group(\"/ab\").Get(%q, %s)", p, hs)
 	case kPOST:
-		return fmt.Sprintf("app.Post(%q, %s)", p, behNames[e.beh])
+		return fmt.Sprintf("app.Post(%q, %s)", p, hs)
+	case kRTADD:
+		return fmt.Sprintf("app.Route(%q).Add([GET POST], %s)", p, hs)
+	case kGRALL:
+		return fmt.Sprintf("app.Group(\"/\").All(%q, %s)", p, hs)
 	}
-	return fmt.Sprintf("app.Get(%q, %s)", p, behNames[e.beh])
+	return fmt.Sprintf("app.Get(%q, %s)", p, hs)
 }
 
-// register performs the registration of one entry on app with handler h.
-func register(app *fiber.App, e entry, h fiber.Handler) {
+// register performs the registration of one entry on app with the handler chain hs (len >= 1).
+func register(app *fiber.App, e entry, hs []fiber.Handler) {
 	p := patterns[e.pat]
+	h, rest := hs[0], hs[1:]
 	switch e.kind {
 	case kGET:
-		app.Get(p, h)
+		app.Get(p, h, rest...)
 	case kPOST:
-		app.Post(p, h)
+		app.Post(p, h, rest...)
 	case kUSE:
-		app.Use(p, h)
+		args := make([]any, 0, len(hs)+1)
+		args = append(args, p)
+		for _, x := range hs {
+			args = append(args, x)
+		}
+		app.Use(args...)
 	case kALL:
-		app.All(p, h)
+		app.All(p, h, rest...)
 	case kGRP:
-		app.Group("/ab").Get(p, h)
+		app.Group("/ab").Get(p, h, rest...)
+	case kRTADD:
+		app.Route(p).Add([]string{fiber.MethodGet, fiber.MethodPost}, h, rest...)
+	case kGRALL:
+		app.Group("/").All(p, h, rest...)
 	}
 }
 
@@ -174,7 +228,7 @@ func buildTables() {
 			for pi := range patterns {
 				// the entry ALONE in a fresh app: "individually matches", independent of any other route
 				app := fiber.New(c.fiber())
-				register(app, entry{uint8(k), uint8(pi), bReply}, nop)
+				register(app, entry{uint8(k), uint8(pi), bReply, 0}, []fiber.Handler{nop})
 				app.Handler()
 				stack := app.Stack()
 				if len(stack) != nMeth {
@@ -187,7 +241,7 @@ func buildTables() {
 					for _, rt := range stack[m] {
 						use, _, _ := fiber.VerifRouteFlags(rt)
 						if use != (k == kUSE) {
-							core.Fatal("use flag of %v is %v", entry{uint8(k), uint8(pi), 0}, use)
+							core.Fatal("use flag of %v is %v", entry{uint8(k), uint8(pi), 0, 0}, use)
 						}
 						for i := range reqPaths {
 							if fiber.VerifRouteMatch(rt, pathDet[ci][i], pathPath[ci][i]) {
